@@ -516,9 +516,10 @@ func (s *fedSpec) rootValue(r *fedField, args map[string]any) any {
 type fedFail map[string]bool
 
 type monolithBackend struct {
-	s    *fedSpec
-	fail func(typeName, id, field string) bool
-	muts *[]string
+	nullInputOnFailure bool
+	s                  *fedSpec
+	fail               func(typeName, id, field string) bool
+	muts               *[]string
 }
 
 func (m *monolithBackend) Resolve(parent *gObj, fd *gFieldDef, args map[string]any, path []any) (any, error) {
@@ -552,6 +553,14 @@ func (m *monolithBackend) Resolve(parent *gObj, fd *gFieldDef, args map[string]a
 	}
 	if m.fail != nil && m.fail(parent.Type, parent.ID, f.Name) {
 		return nil, fmt.Errorf("failed")
+	}
+	if f.Requires != "" && m.fail != nil && m.fail(parent.Type, parent.ID, f.Requires) {
+		if m.nullInputOnFailure {
+			// the other admissible outcome (see known finding C07 requires-input-null): the field is
+			// computed from a null input
+			return requiresFn(f.Name, nil), nil
+		}
+		return nil, fmt.Errorf("required input failed")
 	}
 	return s.universeValue(parent.Type, parent.ID, f), nil
 }
@@ -618,6 +627,9 @@ func (b *subgraphBackend) Resolve(parent *gObj, fd *gFieldDef, args map[string]a
 			if r.Name == fd.Name && r.Owner == b.sub {
 				if parent.Type == "Mutation" && b.muts != nil {
 					*b.muts = append(*b.muts, fmt.Sprintf("%s(%v)", r.Name, args["id"]))
+				}
+				if b.served != nil {
+					*b.served = append(*b.served, parent.Type+"||"+r.Name)
 				}
 				return b.withProvided(s.rootValue(r, args), r), nil
 			}
